@@ -60,3 +60,53 @@ Proof.
   intros m hs H. pose proof (hops_from_path_len m hs H). destruct hs; cbn in *; [lia|auto].
 Qed.
 Print Assumptions hops_from_path_nonempty.
+
+(** ** Hop patterns *)
+
+(** [match_from e hops p] returns (never running out of fuel) exactly the positions [q] such
+    that the hops from [p] up to [q] form a word of the language of [e].  All expressions
+    (any nesting, nullable bodies under [+] and [*] included), all hop lists, all start
+    positions inside the list. *)
+Theorem match_from_spec :
+  forall (e : expr) (hs : list hop) (p : nat),
+    (p <= length hs)%nat ->
+    exists S, match_from e hs p = Some S
+      /\ forall q, In q S <-> ((p <= q <= length hs)%nat /\ lang e (seg hs p q)).
+Proof. exact match_from_good. Qed.
+Print Assumptions match_from_spec.
+
+(** A hop pattern allows a path exactly when the hop sequence belongs to the regular
+    language denoted by the pattern: [HopPatternPolicy::matches] = membership in the
+    concatenation of the languages of the top-level expressions.  All patterns, all hop
+    lists (the empty pattern and the empty hop list included). *)
+Theorem pattern_iff_lang :
+  forall (es : list expr) (hs : list hop),
+    exists b, policy_matches es hs = Some b /\ (b = true <-> lang_seq es hs).
+Proof. exact policy_matches_spec. Qed.
+Check pattern_iff_lang :
+  forall es hs, exists b, policy_matches es hs = Some b /\ (b = true <-> lang_seq es hs).
+Print Assumptions pattern_iff_lang.
+Example pattern_iff_lang_nonvacuous :
+  let es := [EPred (mkPred 1 None IfAny);
+             EStar (EOpt (EOr (EPred (mkPred 2 None IfAny)) (EPlus (EPred (mkPred 0 (Some 7) IfAny)))))] in
+  policy_matches es [mkHop 1 5 0 1; mkHop 2 7 1 2; mkHop 3 7 2 0] = Some true
+  /\ policy_matches es [mkHop 1 5 0 1; mkHop 3 6 1 0] = Some false.
+Proof. vm_compute. auto. Qed.
+
+(** Matching always terminates without panicking: the fuel [length hops + 1] given to the
+    repetition loop of [all_nested_matches] is never exhausted, on any pattern and any hop
+    list, and [Policy::matches] (pattern and ACL combined) always produces a boolean.  (The
+    only index expression, [hops[pos]], is guarded by [pos < hops.len()].) *)
+Theorem match_total :
+  forall (a : option acl) (p : option (list expr)) (hs : list hop),
+    (forall es, policy_matches es hs <> None)
+    /\ combined_matches a p hs <> None.
+Proof.
+  intros a p hs.
+  assert (H : forall es, policy_matches es hs <> None).
+  { intros es. destruct (policy_matches_spec es hs) as (b & -> & _). discriminate. }
+  split; [exact H|]. unfold combined_matches. destruct p as [es|].
+  - specialize (H es). destruct (policy_matches es hs) as [[|]|]; congruence.
+  - discriminate.
+Qed.
+Print Assumptions match_total.
